@@ -324,8 +324,12 @@ func (c *msgCase) whole() (out string) {
 			c.kill()
 		}
 	}()
+	// relays already on the confirm channel when ProcessBatch is entered were sent EARLY
+	// (before the batch was written): they are printed before the batch atoms
+	var early []string
+	h.beforeApply = func() { early = c.relayAtoms() }
 	c.st.VerifPersist()
-	a := append(c.batchAtoms(), c.relayAtoms()...)
+	a := append(append(early, c.batchAtoms()...), c.relayAtoms()...)
 	h.clear()
 	return atoms(a)
 }
@@ -367,11 +371,13 @@ func (c *msgCase) split() {
 	bIdx, cIdx := -1, -1
 	h := c.eng.hk()
 	h.clear()
+	var early []string
 	h.beforeApply = func() {
+		early = c.relayAtoms() // sent before the batch was written: early
 		bIdx = c.segment("B")
 	}
 	h.afterApply = func() {
-		c.outs[bIdx] = atoms(c.batchAtoms())
+		c.outs[bIdx] = atoms(append(early, c.batchAtoms()...))
 		cIdx = c.segment("C")
 	}
 	defer func() {
